@@ -543,6 +543,16 @@ func (e *Enc) instr(fr *Frame, in ssa.Instruction, st *State, rb Term) (*State, 
 		if !x.Call.IsInvoke() {
 			st = e.Leak(st, e.value(fr, x.Call.Value))
 		}
+		if fr.top != nil && fr.top.contract != nil && fr.top.contract.UsesGoStart {
+			// ghost counter "gostart": go statements executed so far (for "X happens before any
+			// goroutine is started" at cut points)
+			e.comps.Register("$gostart.n", "Int")
+			n := e.Get(st, "$gostart.n")
+			st = e.Havoc(st, e.modAllHeap())
+			st = e.Set(st, "$gostart.n", "(+ "+n+" 1)")
+			e.logs["gostart"] = true
+			return st, rb
+		}
 		return e.Havoc(st, e.modAllHeap()), rb
 	case *ssa.Send, *ssa.Select:
 		e.unsupported(fr, "channel operation")
